@@ -1,23 +1,23 @@
 ----------------------------- MODULE Trace_C10 -----------------------------
 (* Validates which template rule the real processor instantiated (TraceListener events,          *)
 (* harness/xslt.cpp) against TemplateRules!Winner / ImportsWinner.                                *)
-(*   [e |-> "Rules", tree]                      the stylesheet's module tree (one per execution)  *)
+(*   [e |-> "Rules", tree, keys]                the stylesheet's module tree and xsl:key declarations *)
 (*   [e |-> "Pick", doc, node, mode, via, from, chosen]                                           *)
 EXTENDS TemplateRules, Json, IOUtils
 VARIABLES l, st, failed, done
 
 Forest == TLCGet(2)
-Ctx(n) == [f |-> Forest, n |-> n, pos |-> 1, size |-> 1, vars |-> <<>>, cur |-> n, keys |-> <<>>]
+Ctx(n, keys) == [f |-> Forest, n |-> n, pos |-> 1, size |-> 1, vars |-> <<>>, cur |-> n, keys |-> keys]
 
 C10Step(s, ev) ==
-  IF ev.e = "Rules" THEN [ok |-> TRUE, st |-> Entries(ev.tree), msg |-> ""]
+  IF ev.e = "Rules" THEN [ok |-> TRUE, st |-> [en |-> Entries(ev.tree), keys |-> IF "keys" \in DOMAIN ev THEN ev.keys ELSE <<>>], msg |-> ""]
   ELSE LET n == <<ev.node[1], ev.node[2], ev.node[3]>>
-           want == IF ev.via = "imports" THEN ImportsWinner(s, n, ev.mode, ev.from, Ctx(n))
-                   ELSE Winner(s, n, ev.mode, Ctx(n))
+           want == IF ev.via = "imports" THEN ImportsWinner(s.en, n, ev.mode, ev.from, Ctx(n, s.keys))
+                   ELSE Winner(s.en, n, ev.mode, Ctx(n, s.keys))
        IN [ok |-> want = ev.chosen, st |-> s, cont |-> TRUE,
            msg |-> "node " \o ToString(n) \o " via " \o ev.via \o ": want rule " \o ToString(want) \o " got " \o ToString(ev.chosen)]
 
 TraceInit2 == TLCSet(2, ndJsonDeserialize(IOEnv.DOCS))
-INSTANCE TraceBase WITH StInit <- {}, Step <- C10Step
+INSTANCE TraceBase WITH StInit <- [en |-> {}, keys |-> <<>>], Step <- C10Step
 Spec2 == TraceInit2 /\ TSpec
 =============================================================================
